@@ -11,7 +11,8 @@ Property theorems only (helper lemmas are in `Lemmas/Resample.lean`). The model
 `(x, y, z, t)` with `t = timestamp.toAbsTime()`; the stamp of an output is the C03 model (`stampOf`). All
 statements are over an arbitrary linearly ordered field (ℚ, ℝ): for every track, every list of instants, every step.
 Sections: T1–T4 (temporal / spatial), D1–D4 (degenerate requests), S1 (millisecond stamps), T3d (pauses),
-O1–O5 (callers), T2' / T3e / S2 (repeated timestamps: the interpolant in the original order of the fixes, legs travelled
+O1–O5 (callers), T4c / T4' (the clamp of the interpolated time, fix 20ed89f: a no-op in exact arithmetic; what it
+guarantees in ANY arithmetic), T2' / T3e / S2 (repeated timestamps: the interpolant in the original order of the fixes, legs travelled
 in no time, the calendar stamps of a spatially resampled track never decrease).
 
 `sampleT P t` / `sampleS P S s` (Lemmas) are the *specification* samples: the point of the leg
@@ -101,17 +102,19 @@ theorem temporal_number_step (trunc : α → Int) (htr : TruncSpec trunc) (P : L
     linarith
 
 /-- T3a `spatial_samples`. `__resampleSpatial` with step `ds > 0` on a track whose 2D leg lengths are
-`legs ≥ 0` raises nothing and returns the first fix followed by the `N` specification samples at
+`legs ≥ 0` and whose stamps never decrease (so that the clamp of the fix commit 20ed89f — the interpolated time kept
+between the two stamps of its leg — changes nothing: `clampT_combine`) raises nothing and returns the first fix followed by the `N` specification samples at
 curvilinear abscissas `ds, 2ds, …, N·ds`, where `N = int(L/ds)` is the number of multiples of `ds` not
 exceeding the length `L`: `N·ds ≤ L < (N+1)·ds`. -/
 theorem spatial_samples (trunc : α → Int) (htr : TruncSpec trunc) (P : List (Fix α)) (legs : List α)
-    (hlen : legs.length + 1 = P.length) (hlegs : ∀ x ∈ legs, 0 ≤ x) (ds : α) (hds : 0 < ds) :
+    (hlen : legs.length + 1 = P.length) (hlegs : ∀ x ∈ legs, 0 ≤ x)
+    (hT : (P.map (·.t)).Pairwise (· ≤ ·)) (ds : α) (hds : 0 < ds) :
     ∃ N : Nat,
       resampleSpatialLegs trunc P legs ds
         = .ok (P[0]'(by omega) :: (List.range N).map
             (fun (j : Nat) => sampleS P (cum legs) (((j + 1 : Nat) : α) * ds))) ∧
       (N : α) * ds ≤ polyLen legs ∧ polyLen legs < ((N : α) + 1) * ds := by
-  refine ⟨_, resampleSpatialLegs_eq trunc htr P legs hlen hlegs ds hds, ?_⟩
+  refine ⟨_, resampleSpatialLegs_eq trunc htr P legs hlen hlegs hT ds hds, ?_⟩
   obtain ⟨hN1, hN2⟩ := htr (polyLen legs / ds) (div_nonneg (polyLen_nonneg legs hlegs) (le_of_lt hds))
   have hne : ds ≠ 0 := ne_of_gt hds
   constructor
@@ -148,7 +151,7 @@ theorem spatial_time_monotone (trunc : α → Int) (htr : TruncSpec trunc) (P : 
     (legs : List α) (hlen : legs.length + 1 = P.length) (hlegs : ∀ x ∈ legs, 0 ≤ x)
     (hT : (P.map (·.t)).Pairwise (· ≤ ·)) (ds : α) (hds : 0 < ds) :
     ∃ out, resampleSpatialLegs trunc P legs ds = .ok out ∧ (out.map (·.t)).Pairwise (· ≤ ·) := by
-  obtain ⟨N, heq, hN, _⟩ := spatial_samples trunc htr P legs hlen hlegs ds hds
+  obtain ⟨N, heq, hN, _⟩ := spatial_samples trunc htr P legs hlen hlegs hT ds hds
   refine ⟨_, heq, ?_⟩
   have hSlen := cum_length legs
   have hS0 : (cum legs)[0]'(by omega) = 0 := cumFrom_head 0 legs
@@ -673,8 +676,9 @@ theorem temporal_repeated_stamps (P : List (Fix α)) (hn : 0 < P.length)
 
 /-- T3e `spatial_equal_stamp_leg`. Spatial mode, a leg of positive 2D length whose two fixes carry the SAME timestamp
 (the leg is travelled in no time): the sample taken on it at abscissa `s` is stamped with exactly that timestamp —
-`wbwd·t + wfwd·t = t` in exact arithmetic. (In floats `wbwd + wfwd` is not exactly 1 and the result can be one ulp below
-`t`, which `readUnixTime` truncates to the millisecond before: finding `spatial-equal-stamp-leg-ms-decrease`.) -/
+`wbwd·t + wfwd·t = t` in exact arithmetic. (In floats `wbwd + wfwd` is not exactly 1 and the weighted mean can be one ulp
+below `t`, which `readUnixTime` truncated to the millisecond before — former finding `spatial-equal-stamp-leg-ms-decrease`,
+repaired by the fix commit 20ed89f: the clamp returns `t` whatever the arithmetic, see T4'.) -/
 theorem spatial_equal_stamp_leg (P : List (Fix α)) (legs : List α) (hlen : legs.length + 1 = P.length)
     (hlegs : ∀ x ∈ legs, 0 ≤ x) (s : α) (h0 : 0 < s) (h1 : s ≤ polyLen legs) :
     ∃ (r : Nat) (_ : 1 ≤ r) (hr : r < P.length),
@@ -710,7 +714,7 @@ actually carry: spatial resampling (step `ds > 0`) of a track whose stamps never
 before 1970 returns observations stamped `ObsTime.readUnixTime(t)` = `readUnixMs m` (C03 model) with `m = ⌊1000·t⌋` the
 millisecond of the interpolated time `t`; these whole milliseconds never decrease along the output, and every such
 stamp is a well-formed calendar stamp reading back (`toAbsTime`) as `m` ms exactly — so the stamps compared as instants
-never decrease. (Exact arithmetic; see T3e for what floats do on a leg travelled in no time.) -/
+never decrease. (Exact arithmetic; T4' is what remains true of the times in any arithmetic.) -/
 theorem spatial_stamps_monotone (trunc : α → Int) (htr : TruncSpec trunc) (ms : α → Int) (hms : MsFloor ms)
     (P : List (Fix α)) (legs : List α) (hlen : legs.length + 1 = P.length) (hlegs : ∀ x ∈ legs, 0 ≤ x)
     (hT : (P.map (·.t)).Pairwise (· ≤ ·)) (h0 : (0 : α) ≤ (P[0]'(by omega)).t) (ds : α) (hds : 0 < ds) :
@@ -719,7 +723,7 @@ theorem spatial_stamps_monotone (trunc : α → Int) (htr : TruncSpec trunc) (ms
       (out.map (fun p => (ms p.t).toNat)).Pairwise (· ≤ ·) ∧
       (∀ p ∈ out, (((ms p.t).toNat : Nat) : α) ≤ p.t * 1000 ∧ p.t * 1000 < (((ms p.t).toNat : Nat) : α) + 1) ∧
       (∀ m : Nat, TV.ObsTime.WFs (TV.ObsTime.readUnixMs m) ∧ TV.ObsTime.toAbsMs (TV.ObsTime.readUnixMs m) = m) := by
-  obtain ⟨N, heq, _, _⟩ := spatial_samples trunc htr P legs hlen hlegs ds hds
+  obtain ⟨N, heq, _, _⟩ := spatial_samples trunc htr P legs hlen hlegs hT ds hds
   obtain ⟨out, hout, hmono⟩ := spatial_time_monotone trunc htr P legs hlen hlegs hT ds hds
   have hfirst : ∀ p ∈ out, (P[0]'(by omega)).t ≤ p.t := by
     rw [heq] at hout
@@ -754,6 +758,61 @@ theorem spatial_stamps_monotone (trunc : α → Int) (htr : TruncSpec trunc) (ms
     unfold TV.ObsTime.toAbsMs TV.ObsTime.readUnixMs
     simp only [h.2]
     omega
+
+/-! ### the clamp of the interpolated time (fix commit 20ed89f) -/
+
+/-- T4c `spatial_clamp_exact`. In exact arithmetic the clamp `T = min(max(T, t_bwd), t_fwd)` added to `__resampleSpatial`
+by the fix commit 20ed89f is a no-op: for a sample at abscissa `v` of a leg `vb < v ≤ vf` whose stamps satisfy
+`tb ≤ tf`, the weighted mean `wbwd·tb + wfwd·tf` already lies in `[tb, tf]` and the clamped value is the linear
+interpolation `tb + ((v − vb)/(vf − vb))·(tf − tb)` — so T3a, T3, T3d, T3e, T4, S2 describe the repaired code. -/
+theorem spatial_clamp_exact (vb vf v tb tf : α) (h1 : vb < v) (h2 : v ≤ vf) (ht : tb ≤ tf) :
+    clampT ((vf - v) / (vf - vb) * tb + (v - vb) / (vf - vb) * tf) tb tf
+      = tb + (v - vb) / (vf - vb) * (tf - tb) ∧
+    tb ≤ tb + (v - vb) / (vf - vb) * (tf - tb) ∧ tb + (v - vb) / (vf - vb) * (tf - tb) ≤ tf := by
+  obtain ⟨f0, f1⟩ := frac_bounds vb vf v h1 h2
+  exact ⟨clampT_combine vb vf v tb tf h1 h2 ht, lerp_bounds tb tf _ ht (le_of_lt f0) f1⟩
+
+/-- T4' `spatial_time_clamped`. What the clamp guarantees WITHOUT exact arithmetic. `β` is any linearly ordered type
+with four ARBITRARY operations `+ − × ÷` (no law is assumed: they may round as IEEE doubles do; the doubles other than
+NaN are linearly ordered). On a track whose stamps never decrease (repeats allowed), whenever the loop of
+`__resampleSpatial` returns, there is for every output `out[i]` the leg `legs[i]` (the value of `running_id`) such that
+(a) the legs never go backwards;
+(b) the time handed to `readUnixTime` lies between the stamps of the two fixes of its leg, `P[r−1].t ≤ t ≤ P[r].t`;
+(c) hence two outputs on different legs are in chronological order, `out[i].t ≤ out[j].t`;
+(d) an output on a leg travelled in no time (both fixes stamped `t`) is stamped exactly `t`, so two outputs of such a leg
+are in order too (the repaired defect: they were `t` and `t − 1 ulp`);
+(e) no output is earlier than the first fix, which `__resampleSpatial` puts in front.
+The only pairs NOT ordered by the clamp alone are two samples of one leg of positive duration: their order is that of the
+two weighted means, which needs the arithmetic (T4, exact). -/
+theorem spatial_time_clamped {β : Type} [LinearOrder β] [Add β] [Sub β] [Mul β] [Div β] [OfNat β 0] [NatCast β]
+    (P : List (Fix β)) (hT : (P.map (·.t)).Pairwise (· ≤ ·)) (S : List β) (sini sfin ds : β) (n k rid : Nat)
+    (out : List (Fix β)) (h : spatialLoop P S sini sfin ds n k rid = .ok out) :
+    ∃ (legs : List Nat) (hl : legs.length = out.length), legs.Pairwise (· ≤ ·) ∧
+      (∀ i (hi : i < out.length), ∃ pb pf, P[legs[i] - 1]? = some pb ∧ P[legs[i]]? = some pf ∧
+        pb.t ≤ out[i].t ∧ out[i].t ≤ pf.t) ∧
+      (∀ i j (_ : i < j) (hj : j < out.length), legs[i]'(by omega) < legs[j] → (out[i]'(by omega)).t ≤ out[j].t) ∧
+      (∀ i (hi : i < out.length) pb pf, P[legs[i] - 1]? = some pb → P[legs[i]]? = some pf → pb.t = pf.t →
+        out[i].t = pf.t) ∧
+      (∀ o ∈ out, ∀ p0, P[0]? = some p0 → p0.t ≤ o.t) := by
+  obtain ⟨legs, hF, _, hpw⟩ := spatialLoop_any P hT S sini sfin ds n k rid out h
+  have hl : legs.length = out.length := hF.length_eq
+  have hget : ∀ i (hi : i < out.length), OnLeg P (legs[i]'(by omega)) out[i] := by
+    intro i hi
+    have := (List.forall₂_iff_get.mp hF).2 i (by omega) hi
+    simpa using this
+  refine ⟨legs, hl, hpw, fun i hi => hget i hi, ?_, ?_, ?_⟩
+  · intro i j hij hj hlt
+    exact onLeg_le P hT (hget i (by omega)) (hget j hj) hlt
+  · intro i hi pb pf e1 e2 heq
+    refine onLeg_eq P (hget i hi) ?_ pf e2
+    intro pb' pf' e1' e2'
+    rw [e1] at e1'; rw [e2] at e2'
+    cases e1'; cases e2'
+    exact heq
+  · intro o ho p0 hp0
+    obtain ⟨i, hi, rfl⟩ := List.getElem_of_mem ho
+    obtain ⟨pb, _, e1, _, c1, _⟩ := hget i hi
+    exact le_trans (times_le P hT hp0 e1 (Nat.zero_le _)) c1
 
 /-! ### non-vacuity -/
 
@@ -892,5 +951,10 @@ example : MsFloor (fun t : ℚ => (t * 1000).floor) := fun _ => ⟨Int.floor_le 
 example : (resampleSpatialLegs (fun x : ℚ => x.floor) demoRep [5, 5, 5] 2).toOption.map
       (fun out => out.map (fun p => ((p.t * 1000).floor).toNat))
     = some [10000, 14000, 18000, 20000, 20000, 20000, 24000, 28000] := by decide +kernel
+
+/-! #### the clamp -/
+/-- the clamp acts on a value outside the two stamps (what a rounded weighted mean may be) and leaves one inside alone -/
+example : clampT (77/2 - 1/1000000 : ℚ) (77/2) (77/2) = 77/2 := by decide +kernel
+example : clampT (12 : ℚ) 10 20 = 12 ∧ clampT (9 : ℚ) 10 20 = 10 ∧ clampT (21 : ℚ) 10 20 = 20 := by decide +kernel
 
 end TV.C05
